@@ -35,6 +35,9 @@ func ParseFlags() *Opts {
 	flag.IntVar(&o.N, "n", 0, "size parameter for driver-native generation")
 	flag.StringVar(&o.Mode, "mode", "", "driver specific mode")
 	flag.Parse()
+	// seaweedfs' glog would otherwise write log files into os.TempDir
+	flag.Set("logtostderr", "true")
+	flag.Set("alsologtostderr", "false")
 	o.Seed = 1
 	if s := os.Getenv("VERIF_SEED"); s != "" {
 		if v, err := strconv.ParseInt(s, 10, 64); err == nil {
